@@ -1,6 +1,6 @@
 #!/usr/bin/python3
 """Import confirmed seeded changes into /verif/seeded/<id>/ and record what the checks say about them.
-usage: import_seeds.py <property> <worktree> <confirm log>"""
+usage: import_seeds.py <property> <dir containing seeded/> <confirm log> [batch [first-pass log]]"""
 import json
 import os
 import shutil
@@ -8,6 +8,15 @@ import subprocess
 import sys
 
 prop, wt, log = sys.argv[1:4]
+batch = int(sys.argv[4]) if len(sys.argv) > 4 else None
+firstpass = {}
+if len(sys.argv) > 5:
+    for l in open(sys.argv[5]):
+        try:
+            d = json.loads(l)
+            firstpass[d["seed"]] = d
+        except Exception:
+            pass
 conf = {}
 for l in open(log):
     try:
@@ -44,5 +53,10 @@ for name in sorted(os.listdir(os.path.join(wt, "seeded"))):
         "agent_ran": meta.get("ran"),
         "check_result": {"cmd": "./check %s (patch applied to /repo, reverted afterwards)" % prop, "exit": p.returncode, "detected": p.returncode == 1 and bool(keys), "violation_keys": keys[:8]},
     }
+    if batch is not None:
+        out["batch"] = batch
+    fp = firstpass.get(name)
+    if fp is not None:
+        out["first_pass"] = {"detected": fp.get("check_rc") == 1 and bool(fp.get("violations")), "keys": [k.replace("rule-key: ", "") for k in fp.get("violations", [])][:4], "note": "verdict of the checks as they stood when the change arrived (seeded/batch3_firstpass.log)"}
     json.dump(out, open(os.path.join(dst, "meta.json"), "w"), indent=1)
     print(name, "detected" if out["check_result"]["detected"] else "MISSED", keys[:2])
